@@ -374,6 +374,18 @@ for nm, q in (("basic", 1), ("partial_ord", 1), ("downcast", 1), ("slices", 1), 
       bounds={"values": "symbolic u32 / f32 (incl. NaN) / Drop-ledger values", "scenario": nm})
 
 
+# ---------------------------------------------------------------------------
+# T1 infallible twins (C09); raw_vec growth lemma (C18/C19)
+# ---------------------------------------------------------------------------
+for nm, m in (("layout", 1), ("layout", 8), ("value", 1), ("value", 16), ("slice", 1), ("slice", 4)):
+    H("t1_twin_%s_m%d" % (nm, m), "__verif::t1", "T1", quick=["C09"] if (nm, m) in (("layout", 8), ("slice", 1)) else [], thorough=["C09"], timeout=2400, cost=150, mem_gb=16,
+      stubs=STUB_NULL, inst="Bump<%d> x 2" % m, allow=[r"out of memory|requested allocation size overflowed"],
+      funcs=["Bump::alloc_layout / try_alloc_layout", "Bump::alloc / try_alloc", "Bump::alloc_slice_fill_copy / try_alloc_slice_fill_copy", "oom()"],
+      bounds={"arenas": "two chunks of <= 1 KiB with the same symbolic geometry, finger and limit", "request": "any layout / [u64;4] / u16 slice of any length", "allocator": "A-null"})
+H("f5_amortized_new_size", "collections::raw_vec::__verif_rawvec", "F5", quick=["C18", "C19"], cost=5, inst="RawVec<u8>",
+  funcs=["RawVec::amortized_new_size"], bounds={"cap": "0..isize::MAX", "used": "<= cap", "extra": "any usize"})
+
+
 def by_name(n):
     for h in ALL:
         if h.name == n:
